@@ -101,6 +101,9 @@ class QPlugin:
 
     def shutdown(self):
         for j in list(self.running_jobs.values()):
+            if j.done:
+                # finished elsewhere (timeout, kill, another worker): nothing to re-queue
+                continue
             logger.debug("reschedule %s" % j)
             self.workq.pushjob(j)
 
